@@ -83,7 +83,7 @@ def _gen_ninja(variant, harnesses):
             src = os.path.join(VERIF, 'mc', h + '.cc')
             w('build mc_%s.o: cxx %s' % (h, src))
             w('  extra = -fno-access-control -I%s/mc' % VERIF)
-            w('build %s: linkxx mc_%s.o %s' % (h, h, ' '.join(libobjs)))
+            w('build %s: linkxx mc_%s.o dfs_main_renamed.o %s' % (h, h, ' '.join(libobjs)))
             targets.append(h)
     w('default ' + ' '.join(targets))
     return '\n'.join(out) + '\n'
